@@ -20,6 +20,8 @@ def apply_impl(nodes, op):
     k = op[0]
     if k == "attach":
         # plain append, or the same position given explicitly (the positional form of add_child): attaching is attaching
+        if (op[1] * 3 + op[2]) % 3 == 0:
+            nodes[op[2]].parent = nodes[op[1]]        # as Node(name, parent=p) leaves it: a link, not yet an attach
         if (op[1] + op[2]) % 2:
             nodes[op[1]].add_child(nodes[op[2]], index=len(nodes[op[1]].children))
         else:
